@@ -16,7 +16,7 @@ import oracles
 
 CONFIG = {
     "id": "C13",
-    "rule": ("all sequences of length <= 4 (quick) / <= 5 (thorough) over 4 values per kind (ints, floats, words, numeric "
+    "rule": ("max / min x inversion over what a Collector gathered - (/x[a:b]), (/x/*), ((/x[a:b])): lists of NodeCoords, no nodes of the document - for all lists of length <= 3 (quick) / <= 4 over ints, floats, words, numeric-looking ints and mixed-case words, with and without one null: judged on the real end-to-end result against the definition (the model is not asked for these); all sequences of length <= 4 (quick) / <= 5 (thorough) over 4 values per kind (ints, floats, words, numeric "
              "strings, words with shared prefixes and case differences, numeric-looking text such as '10' and '9', ints "
              "mixed with floats, values equal across types 1/1.0/true/'1', values Python calls false 0/0.0/false/''/-1) plus null, under max/min/unique/distinct x "
              "inversion x parameter absent/present; all Array-of-Hashes and hash-of-hashes of <= 3 (quick) / <= 4 records "
@@ -221,8 +221,20 @@ def parsed_terms(case):
     return t if isinstance(t, E["Terms"]) else None
 
 
+TRIVIAL = "(node-eq (L i1 none false none none) (L i1 none false none none))"
+
+
+def wrapped(case):
+    """Stream `wrapped_cases`: the keyword is applied to what a Collector hands on - a list of NodeCoords (of
+    NodeCoords, for a Collector over a slice) - which is no node of the document: the model is not asked (the
+    requests are trivially true), the definition is judged on the real end-to-end result (judge_wrapped)."""
+    return case[1].startswith("(")
+
+
 def requests(case):
     text, prefix, kw, invert, raw = case
+    if wrapped(case):
+        return [TRIVIAL, TRIVIAL]
     d = get_doc(text)
     t = parsed_terms(case)
     if t is None:
@@ -239,6 +251,8 @@ def requests(case):
 def observe(case):
     E = _ENV
     text, prefix, kw, invert, raw = case
+    if wrapped(case):
+        return ["true", "true"]
     d = get_doc(text)
     is_name = kw == "name"
     out = []
@@ -333,8 +347,53 @@ class _Absent:
 ABSENT = _Absent()
 
 
+def _unwrap(x):
+    while type(x).__name__ == "NodeCoords":
+        x = x.node
+    return x
+
+
+def wrapped_run(case):
+    """(members the Collector gathers - by Python slicing of the loaded list -, real end-to-end result values | None
+    when the query raised a YAMLPathException, exception of another class | None)"""
+    import re
+    E = _ENV
+    text, prefix, kw, invert, raw = case
+    data = get_doc(text).data["x"]
+    m = re.match(r"^\(+/x\[(-?\d+):(-?\d+)\]\)+$", prefix)
+    members = list(data[int(m.group(1)):int(m.group(2))]) if m else list(data)
+    try:
+        got = [_unwrap(n) for n in E["Processor"](E["log"], get_doc(text).data).get_nodes(
+            E["YAMLPath"](full_path(case)), mustexist=True)]
+    except E["YPE"]:
+        return members, None, None
+    except Exception as e:  # noqa
+        return members, None, e
+    return members, got, None
+
+
+def judge_wrapped(case):
+    text, prefix, kw, invert, raw = case
+    members, got, exc = wrapped_run(case)
+    where = "%s over x: %s" % (full_path(case), text)
+    if exc is not None:
+        return "%s raised %s" % (where, type(exc).__name__)
+    vals = [v for v in members if v is not None]
+    kinds = set(scalar_kind(v) for v in vals)
+    if len(kinds) != 1 or None in kinds:
+        return None
+    best = max(vals) if kw == "max" else min(vals)
+    want = [v for v in members if (v is not None and v == best) != invert]
+    # "exactly the members ..." / "exactly the others": which members, not in which order (as for the plain stream)
+    if sorted(map(repr, got or [])) != sorted(map(repr, want)):
+        return "%s: yields %r, the definition gives %r (members %r)" % (where, got, want, members)
+    return None
+
+
 def judge(case, obs):
     text, prefix, kw, invert, raw = case
+    if wrapped(case):
+        return judge_wrapped(case)
     d = get_doc(text)
     if d.aliased:
         return None
@@ -461,6 +520,8 @@ def judge_line(case, d, line, which):
 
 def classify(case, obs):
     text, prefix, kw, invert, raw = case
+    if wrapped(case):
+        return "%s%s:wrapped:%s" % ("!" if invert else "", kw, "slice" if "[" in prefix else "all")
     r = "ok" if obs[1].startswith("(ok") else ("ype" if obs[1] == "(raise ype)" else "X")
     n = obs[1].count("(nc ")
     shape = "seq" if text.startswith("[") else "map" if text.startswith("{") else "scalar"
@@ -483,7 +544,12 @@ def undescribe(d):
     return eval(d["case"], {"__builtins__": {}}, {})
 
 
-FINDING_PREDS = {}
+def _wrapped_null(case, obs):
+    """a Collector result that holds a null is handed to max() / min()"""
+    return wrapped(case) and any(v is None for v in wrapped_run(case)[0])
+
+
+FINDING_PREDS = {"wrapped_null_member": _wrapped_null}
 
 
 # ---------------------------------------------------------------- generators
@@ -618,6 +684,24 @@ def rand_cases(seed, n):
         yield (text, "/x", rng.choice(["max", "min", "unique", "distinct", "has_child"]), rng.random() < 0.4, raw)
 
 
+def wrapped_cases(maxlen):
+    """max() / min() over what a Collector gathered: a slice of the list, the whole list, a slice of a slice"""
+    for kind in (INTS, FLOATS, WORDS, ["9", "10", "2", "100"], ["'b'", "'ab'", "'abc'", "'B'"]):
+        for pool in (kind, kind + ["~"]):
+            for n in range(1, maxlen + 1):
+                for tup in itertools.product(pool, repeat=n):
+                    if tup.count("~") > 1 or ("~" in tup and pool is kind):
+                        continue
+                    if "~" not in tup and pool is not kind:
+                        continue
+                    text = "[%s]" % ", ".join(tup)
+                    for prefix in ("(/x[0:%d])" % n, "(/x[0:%d])" % max(n - 1, 1), "(/x[1:%d])" % n, "(/x/*)",
+                                   "((/x[0:%d]))" % n):
+                        for kw in ("max", "min"):
+                            for inv in (False, True):
+                                yield (text, prefix, kw, inv, "")
+
+
 def loadable(text):
     try:
         from ruamel.yaml import YAML
@@ -631,7 +715,8 @@ def chunks(tier, seed):
     size = 400
     buf = []
     streams = [misc_cases(), nav_cases(), seq_cases(5 if tier == "thorough" else 4),
-               rec_cases(4 if tier == "thorough" else 3), rand_cases(seed, 60000 if tier == "thorough" else 6000)]
+               rec_cases(4 if tier == "thorough" else 3), rand_cases(seed, 60000 if tier == "thorough" else 6000),
+               wrapped_cases(4 if tier == "thorough" else 3)]
     ok = {}
     for st in streams:
         for c in st:
